@@ -122,6 +122,7 @@ class TryToResolveBody(Spec):
     cases = ('committed-data-given', 'committed-data-empty')
     assumptions = tuple(ASSUMPTIONS)
     callable_contract = False      # call sites use the storage-level contract in fs_write / demostorage
+    label = 'body'
 
     def setup(self, c, case=None):
         st = c.fresh_opaque('storage')
@@ -403,5 +404,6 @@ class PersistentLoad(Spec):
         return [Outcome('ok', post=post)]
 
 
-SPECS = [TryToResolveBody, PersistentReferenceInit, PersistentLoad]
+SPECS = [PersistentReferenceInit, PersistentLoad]
+VARIANTS = [TryToResolveBody]      # its call-site contract is fs_write.TryToResolve
 INLINE = [PR + '.__init__', MOD + ':BadClass.__init__']
